@@ -153,6 +153,16 @@ PROPS = {
                     'tie = fact tables (class IR, metaclass IR, hierarchy, defaults) + lock-step on the real System/Asset classes + twin-behaviour monitor.',
         assumptions=['what initialize() and the constructors do is abstracted to the order of their attribute reads/writes and calls (tools/pyfacts.py IR)',
                      'Cms (takes another asset as argument) not generated by the lock-step']),
+    'C14': dict(
+        vfile='Props/C14.v', ties=['Tie/TieEnv.v', 'Tie/TieSys.v'],
+        families=[('repro', 250, 6000, 'small', 'large')],
+        rule='F_repro scenarios: F_floor production lines (merge topologies where tie-breaks decide outcomes, faults, buffers, gates, resources, maintenance), each run in lock-step with the model and then '
+             'again after the asset-id counter advanced (offsets 1/3/10), twice with the real generator after random.seed, split (every run(d) as run(d//2); run(d - d//2) with the tie-break choices held fixed) '
+             'and, for a sample, through System.simulate_multiple_times with max_processes 0 and 2; generated from VERIF_SEED; '
+             'non-trivial = at least 6 parts received and the split variant ran; distinct by scenario text',
+        explanation='Event-system theorems (same weights => same evolution; order-preserving renumbering of asset ids commutes with insertion/pause/unpause/cancel; run() markers only stop the loop) + lock-step with the '
+                    'pure model at varying id offsets; the split and multi-process clauses are decided on the implementation by the reproducibility monitor. PARTIAL.',
+        assumptions=['worker processes: fork start method of this platform', 'the split comparison ignores event creation numbers (the extra marker event shifts them)']),
 }
 
 LEVELS = {
@@ -250,9 +260,15 @@ LEVELS = {
              'and that condition is kernel-checked on the class IR regenerated from /repo on every run. The original code violated it (C20_refuted.v), repaired by fix: 5b382da.',
         design_ref='DESIGN.md section 8, C20', technique='Coq proof (registry state-machine invariant; trace equality of late vs early creation over the regenerated class IR) + lock-step correspondence with System/Asset + twin-behaviour monitor',
         note='Trusted: Coq kernel, pyfacts.py (statement IR of constructors/initialisers), extraction + OCaml driver, Python harness. Behaviour inside initialize() is abstracted to its operation sequence; the twin monitor compares real behaviour.'),
+    'C14': dict(
+        text='PARTIAL. Machine-checked on the event-system model: the evolution depends on randomness only through the tie-break weights (same weights, same run); order-preserving renumbering of asset ids commutes with '
+             'sorted insertion, scheduling, pausing, resuming and cancelling; the marker event of run() changes only clock and terminated flag; results list in index order. The end-to-end split equality and the '
+             'multi-process clause are decided by the reproducibility monitor on the implementation (again / seeded / split / multi-process variants) together with the lock-step against the pure model.',
+        design_ref='DESIGN.md section 8, C14', technique='Coq proof (extensionality in the weight source, renaming equivariance of the queue operations, marker lemmas) + lock-step correspondence at varying id offsets + differential reruns of the implementation',
+        note='Partial: run-split equality and process-level behaviour are not theorems (a Coq model cannot exhibit worker processes).'),
 }
 
 NOT_APPLICABLE = [
     dict(property_id=p, reason='check under construction in this round (model layer not yet built); see DESIGN.md section 12 build order')
-    for p in ['C04', 'C14']
+    for p in ['C04']
 ]
